@@ -109,3 +109,42 @@ def C01_imp_leading_comment(case, params):
     if r["kind"] == "denotation-differs" and all(d[0] in ("order", "comment-order") for d in r["diffs"]):
         return _order_only_mt_imp(c2)
     return False
+
+
+_MULT = re.compile(r"^\s*[+-]?(\d+\.?\d*|\.\d+)?([eE][+-]?\d+)?[mM](\s|$)")
+
+
+def C01_comment_before_multiply(case, params):
+    """F-C01-comment-before-multiply: a C comment line (or a '$' comment) between a value and the xM shortcut that
+    multiplies it, the shortcut being the first word of the next line, is written twice (inside the card and again
+    after it).  Feature: a continuation line whose first word is an xM shortcut, preceded by comment lines or by a
+    line with a '$' comment.  Ablation: the same file without those comments (passes, or leaves only the order
+    differences of the other finding)."""
+    import rt
+    c = case["case"]
+    lines = c["text"].split("\n")
+    W = c.get("width", 80)
+    iscom = [bool(re.match(r"^ {0,4}[cC]( |$)", l.rstrip("\r").expandtabs(8))) for l in lines]
+    out = list(lines)
+    drop = set()
+    for i, l in enumerate(lines):
+        x = l.rstrip("\r").expandtabs(8)[:W]
+        if iscom[i] or x[:5].strip() or not _MULT.match(x):
+            continue
+        j = i - 1
+        while j >= 0 and iscom[j]:
+            drop.add(j)
+            j -= 1
+        if j >= 0 and "$" in lines[j].expandtabs(8)[:W]:
+            cr = "\r" if lines[j].endswith("\r") else ""
+            out[j] = lines[j][:lines[j].index("$")].rstrip() + cr
+            drop.add(-1 - j)                 # marks "a '$' comment removed" (no line dropped)
+    if not drop:
+        return False
+    c2 = dict(c, text="\n".join(l for i, l in enumerate(out) if i not in drop))
+    r = rt.c01_check(c2)
+    if r is None:
+        return True
+    if r["kind"] == "denotation-differs" and all(d[0] in ("order", "comment-order") for d in r["diffs"]):
+        return _order_only_mt_imp(c2)
+    return False
